@@ -7,6 +7,7 @@ usage: seeded.py [--dir DIR] [--props C01,C02|all] [ids...]"""
 import json, os, subprocess, sys, tempfile, shutil, argparse
 sys.path.insert(0, os.path.dirname(os.path.abspath(__file__)))
 from _corpus import tree_with_patch, remove
+os.environ.setdefault("UBCHECK_EVAL_PROCS", "2")
 
 ap = argparse.ArgumentParser()
 ap.add_argument("--dir", default="/verif/seeded")
